@@ -77,9 +77,17 @@ fn do_op(t: &mut SymbolTable, op: &str) -> Option<String> {
 }
 
 pub fn line(line: &str) -> String {
-    let mut t = SymbolTable::new();
+    // a leading `D` builds the table with `Default::default()` instead of `SymbolTable::new()`: the two
+    // constructors must give the same table (the model has one initial state)
+    let mut ops: Vec<&str> = line.split(';').map(|s| s.trim()).filter(|s| !s.is_empty()).collect();
+    let mut t = if ops.first() == Some(&"D") {
+        ops.remove(0);
+        SymbolTable::default()
+    } else {
+        SymbolTable::new()
+    };
     let mut outs = Vec::new();
-    for op in line.split(';').map(|s| s.trim()).filter(|s| !s.is_empty()) {
+    for op in ops {
         match do_op(&mut t, op) {
             Some(o) => outs.push(o),
             None => return "bad-op".into(),
